@@ -131,12 +131,12 @@ func c10StartServer(dir string, cfg c10Cfg, imp *c10Imp) (tcpAddr, udpAddr strin
         handlegroup=VerifApp.C10Server.%sObjAdapter
         maxconns=1000
         protocol=tars
-        queuecap=10000
+        queuecap=%d
         queuetimeout=60000
         servant=VerifApp.C10Server.%sObj
         threads=5
       </VerifApp.C10Server.%sObjAdapter>
-`, name, proto, port, name, name, name)
+`, name, proto, port, name, cfg.queueCap(), name, name)
 	}
 	conf := fmt.Sprintf(`<tars>
   <application>
